@@ -2,7 +2,7 @@
 the conformance pipelines, probes known-finding witnesses.  Returns the level category."""
 import json, os
 
-from . import common, randgen, rowsp, tlc
+from . import common, iterp, randgen, rowsp, tlc
 from .common import ToolError, log, pats, read_ndjson, texts
 
 CHECKS = {}
@@ -65,12 +65,13 @@ def core_space(ctx):
     return spaces
 
 
-def probe_known(ctx, mode):
+def probe_known(ctx, mode, kind="rows"):
     for f in common.open_findings(ctx.prop):
         for w in f.get("witnesses", []):
-            if w.get("kind") != "rows" or ctx.prop not in w.get("properties", f["properties"]):
+            if w.get("kind", "rows") != "rows" or ctx.prop not in w.get("properties", f["properties"]):
                 continue
-            if rowsp.probe_witness(ctx, f, w, mode):
+            failed = rowsp.probe_witness(ctx, f, w, mode) if kind == "rows" else iterp.probe_witness(ctx, w, mode)
+            if failed:
                 ctx.known_hits.append("%s %s" % (f["id"], w["what"]))
             else:
                 ctx.note("known finding %s: witness %s no longer fails" % (f["id"], w.get("pat", "")))
@@ -135,6 +136,178 @@ def c15(ctx):
     return "model_checking"
 
 
+def mc_violation(ctx, r, name):
+    """a design-level instance refuted by TLC: the MODEL breaks the property (reported as a violation of the
+    check, with TLC's counterexample tail as detail)"""
+    if r.violated:
+        tail = "\n".join(r.out.splitlines()[-60:])
+        ctx.violation("model instance %s: TLC reports %s violated" % (name, r.violated), dict(kind="mc", instance=name, violated=r.violated, tlc_tail=tail))
+
+
+def random_templates(rng, count, lo, hi):
+    alpha = ["$", "{", "}", "\\", "g", "<", ">", "0", "1", "9", "x", "U", "E", "S"]
+    frag = [["$", "$"], ["$", "{", "x", "}"], ["$", "x", "1"], ["$", "1"], ["$", "{", "1", "}"], ["\\", "g", "<", "x", ">"], ["\\", "1"],
+            ["\\", "\\"], ["$", "{", "U", "}"], ["\\", "g", "<", "9", ">"], ["$", "9"], ["$", "{"], ["\\", "g", "<"], ["$", "0"], ["\\", "0"]]
+    out = []
+    for i in range(count):
+        t = []
+        while len(t) < rng.randint(lo, hi):
+            if rng.random() < 0.45:
+                t += rng.choice(frag)
+            else:
+                t.append(rng.choice(alpha))
+        out.append({"id": i + 1, "tpl": t[:hi + 3]})
+    return out
+
+
+@check("C12")
+def c12(ctx):
+    ctx.rule = ("model: every string/template up to the bound over the 14-symbol template alphabet x 3 capture environments x 2 dialects, "
+                "one TLC state per scanner step; binding: every template up to the bound (exported by TLC) plus seeded longer ones x 3 real "
+                "regex fixtures (unnamed, named, digit-named groups, an unmatched group) x both expanders x 6 public entry points + check + "
+                "escape round trip, recomputed by TLC; non-trivial = templates containing at least one group reference")
+    maxlen = 3 if ctx.quick else 4
+    cfg = ("SPECIFICATION Spec\nCONSTANT MaxLen = %d\nINVARIANT RoundTrip\nINVARIANT StepwiseIsExpansion\nINVARIANT CheckSound\n"
+           "INVARIANT EscapeBorrowRule\nINVARIANT CursorBounded\nPROPERTY Progress\nCHECK_DEADLOCK FALSE\n" % maxlen)
+    r = tlc.run_mc(ctx, "MC_Expand", cfg, must_cover=("ScanStep",), workers=8 if ctx.quick else 16, xmx="8g" if ctx.quick else "24g")
+    mc_violation(ctx, r, "MC_Expand(MaxLen=%d)" % maxlen)
+    ctx.cov["mc_expand"] = dict(maxlen=maxlen, distinct_states=r.distinct, generated=r.generated)
+    fixtures = common.export("expand_fixtures", "fixtures", 0)
+    n = 3 if ctx.quick else 4
+    tp = read_ndjson(common.export("templates_%d" % n, "templates", n))
+    rnd = random_templates(ctx.rng, 6000 if ctx.quick else 150000, 4, 9)
+    d = common.workdir("C12")
+    nrej = 0
+    for name, recs in (("exhaustive_le%d" % n, tp), ("random", rnd)):
+        tf = os.path.join(d, name + ".tpl.ndjson")
+        common.write_ndjson(tf, recs)
+        prefix = os.path.join(d, name + ".exp")
+        common.clean_prefix(prefix)
+        shards = 16 if len(recs) > 2000 else 4
+        common.vh(["expand", "--templates", tf, "--fixtures", fixtures, "--out", prefix, "--shards", shards])
+        rs = tlc.run_shards("TraceExpand", [dict(VH_RECS="%s.%d.ndjson" % (prefix, i)) for i in range(shards)])
+        tlc.require_clean(rs, "TraceExpand(%s)" % name)
+        ctx.add_tlc(rs)
+        st = {}
+        for r in rs:
+            for k, v in r.tagged("STATS")[0].items():
+                st[k] = st.get(k, 0) + v
+            for j in r.tagged("REJECT"):
+                nrej += 1
+                ctx.violation("template %s: %s" % ("".join(j["tpl"]), j["what"]), dict(kind="expand", **j))
+        if st["records"] != len(recs) + shards:
+            raise ToolError("TraceExpand(%s): %d records validated, %d expected" % (name, st["records"], len(recs) + shards))
+        ctx.cov.setdefault("spaces", {})[name] = st
+        ctx.traces += st["ok"]
+        ctx.evaluations += st["outputs"]
+        ctx.nontrivial += st["with_reference"]
+        ctx.samples.append(dict(space=name, template="".join(recs[len(recs) // 2]["tpl"])))
+    ctx.exhaustive = True
+    ctx.cov["exhaustive_note"] = "templates up to length %d over the template alphabet are enumerated completely; longer ones are sampled" % n
+    ctx.assumptions = ["Expand.tla is the documented interpretation of templates (transcribed from the docs of Captures::expand / Expander)",
+                       "fixtures' capture environments are logged by the harness and compared with the specification's"]
+    return "model_checking"
+
+
+def mc_iter(ctx):
+    maxn = 7 if ctx.quick else 10
+    cfg = ("SPECIFICATION Spec\nCONSTANT MaxN = %d\nCONSTANT Contract = TRUE\nINVARIANT ItemsOrdered\nINVARIANT SearchesBounded\n"
+           "INVARIANT ErrIsSticky\nINVARIANT PiecesSoFar\nINVARIANT FinalPieces\nINVARIANT Tiles\nCHECK_DEADLOCK FALSE\n" % maxn)
+    r = tlc.run_mc(ctx, "MC_Iter", cfg, must_cover=("Exhausted", "Rest", "LimitNone"), workers=8)
+    mc_violation(ctx, r, "MC_Iter(MaxN=%d)" % maxn)
+    ctx.cov["mc_iter"] = dict(max_text_len=maxn, distinct_states=r.distinct, generated=r.generated,
+                              note="every leaf behaviour allowed by the contract pos<=start<=end<=len, incl. errors; split and splitn(0..3)")
+    if not ctx.quick:
+        neg = tlc.run_mc(None, "MC_Iter", cfg.replace("Contract = TRUE", "Contract = FALSE").replace("MaxN = %d" % maxn, "MaxN = 3"), name="MC_Iter_neg", workers=2)
+        if not neg.violated:
+            raise ToolError("negative control failed: MC_Iter without the leaf contract should violate ItemsOrdered")
+        ctx.cov["mc_iter"]["negative_control"] = "without the leaf contract TLC refutes " + neg.violated
+
+
+def iter_spaces(ctx, part):
+    t3 = texts("sig6", 3)
+    small = []
+    for n in (1, 2, 3):
+        small += read_ndjson(pats("iter", n))
+    core3 = read_ndjson(pats("core", 3))
+    cf = read_ndjson(pats("ctxfill", 0))
+    if ctx.quick:
+        k = {"fi": 1.0, "ci": 1.0, "sp": 0.35, "rp": 0.5}[part]
+        spaces = [("iter123", renumber_ids(sample(ctx, small, int(1200 * k))), t3), ("core3", renumber_ids(sample(ctx, core3, int(600 * k))), t3),
+                  ("ctxfill", renumber_ids(sample(ctx, cf, int(600 * k))), t3),
+                  ("random", randgen.random_pats(ctx.rng, "core", int(400 * k), depth=3), t3)]
+    else:
+        t4 = texts("sig6", 4)
+        spaces = [("iter123", renumber_ids(small), t3), ("core3", core3, t3), ("ctxfill", cf, t3),
+                  ("random", randgen.random_pats(ctx.rng, "core", 6000, depth=4, max_nodes=16), t3),
+                  ("iter123_L4", renumber_ids(sample(ctx, small, 600)), t4)]
+    return spaces
+
+
+ITER_ASSUME = ROWS_ASSUME + ["Api.tla mirrors the iterator state machines of lib.rs; its laws are model-checked for every leaf behaviour in MC_Iter"]
+
+
+@check("C08")
+def c08(ctx):
+    excl = "".join(common.excl_classes("C08"))
+    ctx.rule = ("histories = complete find_iter item sequences per (pattern, text), incl. the terminating None; patterns: core grammar with \\G and \\K "
+                "(exhaustive to the node bound), contexts x fillers, random; error histories under backtrack limits 0..5; "
+                "non-trivial = texts with at least one yielded item (counted by TLC); model: MC_Iter for every leaf behaviour")
+    mc_iter(ctx)
+    spaces = iter_spaces(ctx, "fi")
+    for name, recs, tpath in spaces:
+        iterp.run_iters(ctx, name, recs, tpath, "fi", excl)
+    # error histories: tiny backtrack limits on VM patterns
+    base = [r for r in read_ndjson(pats("ctxfill", 0))]
+    eh = []
+    for r in sample(ctx, base, 300 if ctx.quick else 1500):
+        eh.append(dict(r, bl=ctx.rng.choice([0, 1, 2, 3, 5])))
+    res = iterp.run_iters(ctx, "errhist", renumber_ids(eh), texts("sig6", 3), "fi", excl)
+    if res["stats"]["error_histories"] == 0:
+        raise ToolError("no error history was produced under tiny backtrack limits (vacuous)")
+    probe_known(ctx, "fi", kind="iters")
+    ctx.exhaustive = False
+    ctx.assumptions = ITER_ASSUME
+    return "model_checking"
+
+
+@check("C10")
+def c10(ctx):
+    excl = "".join(common.excl_classes("C10"))
+    ctx.rule = ("histories = complete piece sequences (as spans) of split and splitn(0..5) per (pattern, text), every prefix being determined by the "
+                "sequence; expected = RefSplit / RefSplitN over the reference find_iter matches; non-trivial = expected rows of texts with a match; "
+                "model: MC_Iter checks the Split/SplitN machines against these laws for every leaf behaviour")
+    mc_iter(ctx)
+    for name, recs, tpath in iter_spaces(ctx, "sp"):
+        iterp.run_iters(ctx, name, recs, tpath, "sp", excl)
+    probe_known(ctx, "sp", kind="iters")
+    ctx.exhaustive = False
+    ctx.assumptions = ITER_ASSUME
+    return "model_checking"
+
+
+@check("C11")
+def c11(ctx):
+    excl = "".join(common.excl_classes("C11"))
+    ctx.rule = ("records = try_replacen(text, limit 0..3, 8 replacers: identity closure, constant string, NoExpand, $0, [$1], ${x1}, $$, constant closure) "
+                "per (pattern, text): result string, Cow variant, Err/panic; expected = RefReplace over the reference matches with Expand.tla for templates; "
+                "borrowed results are counted per (limit, replacer) and must equal the number of texts without a match")
+    t2 = texts("sig6", 2)
+    spaces = iter_spaces(ctx, "rp")
+    named = randgen.random_pats(ctx.rng, "named", 300 if ctx.quick else 3000, depth=3)
+    for name, recs, _ in spaces + [("named", named, None)]:
+        iterp.run_iters(ctx, name, recs, t2, "rp", excl)
+    if not ctx.quick:
+        t3s = os.path.join(common.workdir("C11"), "texts3sample.ndjson")
+        allt3 = read_ndjson(texts("sig6", 3))
+        common.write_ndjson(t3s, sample(ctx, allt3, 60))
+        iterp.run_iters(ctx, "iter123_L3sample", spaces[0][1], t3s, "rp", excl)
+    probe_known(ctx, "rp", kind="iters")
+    ctx.exhaustive = False
+    ctx.assumptions = ITER_ASSUME + ["Expand.tla gives the meaning of $-templates (checked on its own by C12)"]
+    return "model_checking"
+
+
 def inject_export(prof, n):
     return common.export("inject_%s_%d" % (prof, n), "inject", n, prof=prof)
 
@@ -177,6 +350,21 @@ def replay(ctx, path):
     with open(path) as f:
         v = json.load(f)
     d = v["detail"]
+    if d.get("kind") == "expand":
+        dd = common.workdir(ctx.prop)
+        tf = os.path.join(dd, "replay.tpl.ndjson")
+        common.write_ndjson(tf, [{"id": 1, "tpl": d["tpl"]}])
+        prefix = os.path.join(dd, "replay.exp")
+        common.clean_prefix(prefix)
+        common.vh(["expand", "--templates", tf, "--fixtures", common.export("expand_fixtures", "fixtures", 0), "--out", prefix, "--shards", 1])
+        rs = tlc.run_shards("TraceExpand", [dict(VH_RECS=prefix + ".0.ndjson")])
+        tlc.require_clean(rs, "TraceExpand(replay)")
+        rej = rs[0].tagged("REJECT")
+        print(json.dumps(rej, indent=1))
+        if rej:
+            print("VIOLATION property=%s replay=%s" % (ctx.prop, path))
+            return 1
+        return 0
     if d.get("kind") == "rows":
         sub = common.Ctx(ctx.prop, ctx.tier, ctx.seed)
         rec = {"id": 1, "ast": d["ast"], "ng": d["ng"]}
